@@ -3,6 +3,7 @@
 # written by an independent agent that saw only the property text): in a scratch worktree of /repo HEAD
 #   1. the demonstration passes without the patch, 2. fails with it (the defect is real),
 #   3. ./check <Cxx> <tier> run against the patched worktree must exit 1 with a VIOLATION line (the monitor sees it).
+# (a file <dir>/<Cxx>/base names the /repo revision the patch applies to when a later fix: commit rewrote the same lines)
 # SEEDED_DIR=seeded2 selects the second round. Writes <dir>/<Cxx>/result_<tier>.json. Evidence / replay files of /verif are restored afterwards.
 set -u
 PROP="$1"; TIER="${2:-quick}"
@@ -14,7 +15,8 @@ copy_to=$(jq -r .demo.copy_to "$S/meta.json")
 run=$(jq -r .demo.run "$S/meta.json")
 # the helper command line of the agent: "/var/tmp/mut/gotest.sh WT <args>" -> our equivalent helper
 args=$(echo "$run" | sed -e 's#^.*gotest.sh *[^ ]* *##')
-git -C /repo worktree add --detach "$WT" HEAD >/dev/null 2>&1 || { echo "cannot create worktree"; exit 2; }
+BASE="${BASE:-$(cat "$S/base" 2>/dev/null || echo HEAD)}"
+git -C /repo worktree add --detach "$WT" "$BASE" >/dev/null 2>&1 || { echo "cannot create worktree"; exit 2; }
 trap 'git -C /repo worktree remove --force "$WT" >/dev/null 2>&1; rm -rf "$WT"' EXIT
 mkdir -p "$WT/$copy_to"
 demo_name="zz_seeded_demo_test.go"
@@ -35,6 +37,6 @@ nviol=$(echo "$out" | grep -c '^VIOLATION')
 cp "$SAVE/$PROP.json" "$HERE/evidence/" 2>/dev/null; rm -rf "$SAVE" "$HERE/replay/$PROP"
 caught=false; [ $rc -eq 1 ] && [ "$nviol" -gt 0 ] && caught=true
 jq -n --arg p "$PROP" --arg tier "$TIER" --argjson rc_clean $rc_clean --argjson rc_patched $rc_patched --argjson rc $rc \
-  --argjson caught $caught --arg sig "$sig" --argjson n "$nviol" --arg head "$(git -C /repo rev-parse --short HEAD)" \
+  --argjson caught $caught --arg sig "$sig" --argjson n "$nviol" --arg head "$(git -C /repo rev-parse --short "$BASE")" \
   '{property:$p, repo_head:$head, demo_without_patch_exit:$rc_clean, demo_with_patch_exit:$rc_patched, check_tier:$tier, check_exit:$rc, violation_lines:$n, caught:$caught, first_signatures:$sig}' > "$S/result_${TIER}.json"
 printf '%-4s demo(clean/patched)=%s/%s check=%s viol=%s %s\n' "$PROP" $rc_clean $rc_patched $rc $nviol "$(echo "$sig" | head -1 | cut -c1-140)"
